@@ -315,3 +315,89 @@ func (e *Exec) initLocks(st *State, ref string, t types.Type) {
 		}
 	}
 }
+
+// ---------------------------------------------------------------- type invariants
+
+// typeInvOf evaluates the declared invariant of t (if any) for value v in heap h.
+func (e *Exec) typeInvOf(t types.Type, v Val, h *Heap) (string, *TypeInv) {
+	c := e.c
+	ti := c.CS.TypeInvs[typeString(t)]
+	if ti == nil {
+		return "", nil
+	}
+	sc := &Scope{e: e, c: c, cur: h, old: h, params: map[string]Val{ti.Var: v}, names: map[string]Val{}, pkg: pkgOfType(t, e.fn.Pkg.Pkg), tracks: map[string]*trackInfo{}}
+	return e.evalBool(sc, ti.C), ti
+}
+
+func pkgOfType(t types.Type, dflt *types.Package) *types.Package {
+	if p, ok := t.(*types.Pointer); ok {
+		t = p.Elem()
+	}
+	if n, ok := t.(*types.Named); ok && n.Obj().Pkg() != nil {
+		return n.Obj().Pkg()
+	}
+	return dflt
+}
+
+// typeInvStableFields: struct fields mentioned by some type invariant ("T.f" keys). They may be
+// stored to only while the object is not yet published.
+func (cs *Contracts) typeInvStableFields() map[string]bool {
+	if cs.stable != nil {
+		return cs.stable
+	}
+	cs.stable = map[string]bool{}
+	for _, ti := range cs.TypeInvs {
+		base := strings.TrimPrefix(ti.Type, "*")
+		var walk func(x Expr)
+		walk = func(x Expr) {
+			switch x := x.(type) {
+			case *ESel:
+				if id, ok := x.X.(*EIdent); ok && id.Name == ti.Var {
+					cs.stable[base+"."+x.Name] = true
+				}
+				walk(x.X)
+			case *EUn:
+				walk(x.X)
+			case *EBin:
+				walk(x.X)
+				walk(x.Y)
+			case *ECall:
+				for _, a := range x.Args {
+					walk(a)
+				}
+			case *EIdx:
+				walk(x.X)
+				walk(x.I)
+			case *EQuant:
+				walk(x.Body)
+			case *EIte:
+				walk(x.C)
+				walk(x.A)
+				walk(x.B)
+			case *EAddr:
+				walk(x.X)
+			}
+		}
+		walk(ti.C.E)
+	}
+	return cs.stable
+}
+
+// stableStoreCheck: a store to a field a type invariant depends on needs an unpublished object.
+func (e *Exec) stableStoreCheck(addr ssa.Value, st *State, pos token.Pos) {
+	c := e.c
+	if len(c.CS.TypeInvs) == 0 {
+		return
+	}
+	fa, ok := addr.(*ssa.FieldAddr)
+	if !ok {
+		return
+	}
+	key := guardKeyOfAddr(addr)
+	if !c.CS.typeInvStableFields()[key] {
+		return
+	}
+	base := e.val(fa.X).T
+	c.oblige("typeinv", fmt.Sprintf("typeinv.stable[%s]@b%d", key, e.curBlock.Index), st.pc, e.notAllocAtEntry(base),
+		"store to "+key+" (a field a type invariant depends on) only before the object is published", e.pos(pos))
+}
